@@ -761,7 +761,33 @@ def setlen_is_size_minus_header(fb, m, e):
             return "size"
         return None
     form = _linear(m.addSegment, e, syms)
-    return form is not None and form.get("size") == 1 and form.get(1, 0) == -mh and set(form) <= {"size", 1}
+    if form is not None and form.get("size") == 1 and form.get(1, 0) == -mh and set(form) <= {"size", 1}:
+        return True
+    # ... or the size the preceding growth gave the buffer, minus 16, spelled with the operands of that growth (`const size_t total =
+    # old + n; resize(total); setPayloadLength(total - 16)`): the same linear form as the resize amount, the vector's size() read before it
+    fn = m.addSegment
+    sets = [(x, ln) for _, kind, x, ln in facts.vector_sizing(fn, m.buffer) if kind == "set" and ln is not None]
+    if len(sets) != 1:
+        return False
+    grow, amount = sets[0]
+    cfg = fn.cfg
+
+    def syms2(x):
+        if x.get("k") == "call" and (x.get("callee") or {}).get("nm") == "size" and strip_all_casts(x.get("obj", {})).get("field") == m.buffer:
+            # only a size() taken before the growth (same block, earlier) is the old size
+            if x.get("id") in cfg.pos_of and cfg.block_for(x) == cfg.block_for(grow) and cfg.pos_of[x["id"]] < cfg.pos_of[grow["id"]]:
+                return "old"
+            return "size"
+        if x.get("k") in ("call", "ref", "member") and not (x.get("k") == "ref" and x.get("dk") == "local"):
+            return "v:" + canon(x)
+        return None
+    fa, fe = _linear(fn, amount, syms2), _linear(fn, e, syms2)
+    if fa is None or fe is None or "size" in fa or "size" in fe:
+        return False
+    d = dict(fa)
+    for k2, v in fe.items():
+        d[k2] = d.get(k2, 0) - v
+    return {k2: v for k2, v in d.items() if v} == {1: mh}
 
 
 def bounded_reader(fb, g):
